@@ -78,9 +78,16 @@ type shape struct {
 
 func mkShape[T any](name string, custom bool, mk func(id int, s string) T, idOf func(T) int) shape {
 	return shape{
-		name:      name,
-		custom:    custom,
-		publish:   func(bus *eventbus.EventBus, id int, s string) { eventbus.Publish(bus, mk(id, s)) },
+		name:   name,
+		custom: custom,
+		publish: func(bus *eventbus.EventBus, id int, s string) {
+			if id%3 == 2 {
+				// through the static type any: the name is that of the dynamic type
+				eventbus.Publish[any](bus, mk(id, s))
+				return
+			}
+			eventbus.Publish(bus, mk(id, s))
+		},
 		eventType: func() string { return eventbus.EventType(mk(0, "")) },
 		subReplay: func(ctx context.Context, bus *eventbus.EventBus, sub string, sink func(int)) error {
 			return eventbus.SubscribeWithReplay(ctx, bus, sub, func(e T) { sink(idOf(e)) })
